@@ -1140,6 +1140,10 @@ func (c *contextWriter) Run(ctx context.Context, input []byte) ([]byte, error) {
 	if input == nil || len(input) < 128 {
 		return nil, nil
 	}
+	if c.ctx == nil {
+		// reached through CALLCODE, DELEGATECALL or STATICCALL, which carry no caller context
+		return nil, errors.New("aspect context can only be written through a plain call")
+	}
 
 	key, err := loadParamBytes(input, 0)
 	if err != nil {
